@@ -239,6 +239,12 @@ func blockInCycle(b *ssa.BasicBlock) bool {
 
 // R1Nil — nil dereference of nullable results and optional fields.
 func R1Nil(c *Ctx, scope []*ssa.Function, ruleSuffix string, floor int) {
+	R1NilOpt(c, scope, ruleSuffix, floor, nil, true)
+}
+
+// R1NilOpt is R1Nil with a configurable set of optional fields; withCalls=false
+// restricts the nullable sources to those fields (no function results).
+func R1NilOpt(c *Ctx, scope []*ssa.Function, ruleSuffix string, floor int, optional func(tf string) bool, withCalls bool) {
 	rule := "R1-nil" + ruleSuffix
 	c.R.Rule(rule, "every dereference (field access, method call, load/store through, map update) of a value that may be nil — the result of a module function with a `return nil` path (fixpoint summary), or an optional pointer field — is dominated by a nil test of the same value (or by the existence test that implies it)", floor)
 	nullable := c.NullableFuncs()
@@ -258,6 +264,9 @@ func R1Nil(c *Ctx, scope []*ssa.Function, ruleSuffix string, floor int) {
 			for _, in := range b.Instrs {
 				switch x := in.(type) {
 				case *ssa.Call:
+					if !withCalls {
+						continue
+					}
 					if !isNilable(x.Type()) && x.Call.Signature().Results().Len() <= 1 {
 						continue
 					}
@@ -265,13 +274,17 @@ func R1Nil(c *Ctx, scope []*ssa.Function, ruleSuffix string, floor int) {
 						nul[x] = "result of " + shortCallee(CalleeName(x))
 					}
 				case *ssa.Extract:
-					if call, ok := x.Tuple.(*ssa.Call); ok && isNilable(x.Type()) && c.callMayReturnNil(call, x.Index) {
+					if call, ok := x.Tuple.(*ssa.Call); ok && withCalls && isNilable(x.Type()) && c.callMayReturnNil(call, x.Index) {
 						nul[x] = "result of " + shortCallee(CalleeName(call))
 					}
 				case *ssa.UnOp:
 					if x.Op == token.MUL && isNilable(x.Type()) {
 						if t, f, _, ok := FieldOf(x.X); ok {
-							if _, opt := optionalFields[t+"."+f]; opt {
+							_, opt := optionalFields[t+"."+f]
+							if optional != nil {
+								opt = optional(t + "." + f)
+							}
+							if opt {
 								nul[x] = "optional field " + f
 							}
 						}
